@@ -344,8 +344,13 @@ def _r1(ctx, m):
         ini = fl.assigns.get(counter, [])
         ctx.check(len(ini) == 1 and ini[0][0] == ("const", 0) and not ini[0][1] and not ini[0][2], "R1", "nnz-init", (FILE, ini[0][3] if ini else m.func.lineno),
                   f"`{counter}` is initialised once to 0 before the loops", expected=f"{counter} = 0", found="; ".join(show(x[0]) for x in ini))
-        ctx.check(len(incs) == 1 and incs[0].op == "Add" and incs[0].value == ("const", 1), "R1", "nnz-increment", (FILE, incs[0].line if incs else m.func.lineno),
-                  f"`{counter}` is only ever incremented by 1, at one site", found="; ".join(f"{f.op} {show(f.value)} @{f.line}" for f in incs))
+        if len(incs) == 1 and (simp(incs[0].value)[0] == "const" or incs[0].op != "Add"):
+            ctx.check(incs[0].op == "Add" and simp(incs[0].value) == ("const", 1), "R1", "nnz-increment", (FILE, incs[0].line),
+                      f"`{counter}` is only ever incremented by 1, at one site", found="; ".join(f"{f.op} {show(f.value)} @{f.line}" for f in incs))
+        else:
+            # several increment sites (arms, stages) or a step computed elsewhere (`nnz += len(found)`): another spelling of the count
+            ctx.unrec("R1", "nnz-increment", (FILE, incs[0].line if incs else m.func.lineno),
+                      f"`{counter}` is advanced in a way that is not one `+= 1` next to the appends: " + "; ".join(f"{f.op} {show(f.value)[:40]} @{f.line}" for f in incs))
     else:
         own = measured in names.get("vals", []) + names.get("cols", [])
         ctx.check(own, "R1", "nnz-by-length", W, f"the number of stored entries is read as len({measured}), the list that receives one element per stored entry",
@@ -434,9 +439,12 @@ def _r1(ctx, m):
         sl = seq[2]
         lo = {} if sl[1] == ("const", None) else _npoly(m, sl[1])
         ok = sl[3] == ("const", None) and sl[2] != ("const", None) and lo == _npoly(m, rowstart) and _npoly(m, sl[2]) == _npoly(m, ("binop", "Add", rowstart, _NEQ))
-        ctx.check(bool(ok), "R1", "col-loop", (FILE, colloop.line),
-                  f"col loop enumerates the row's slice jacrhs[row*n_eqns : (row+1)*n_eqns] (ascending, complete; position in the slice = column)",
-                  expected="enumerate(jacrhs[row*n_eqns : (row+1)*n_eqns])", found=show(it)[:120])
+        if ok or all(b_ == ("const", None) or m._known_arith(b_) for b_ in sl[1:4]):
+            ctx.check(bool(ok), "R1", "col-loop", (FILE, colloop.line),
+                      f"col loop enumerates the row's slice jacrhs[row*n_eqns : (row+1)*n_eqns] (ascending, complete; position in the slice = column)",
+                      expected="enumerate(jacrhs[row*n_eqns : (row+1)*n_eqns])", found=show(it)[:120])
+        else:
+            ctx.unrec("R1", "col-loop", (FILE, colloop.line), f"the bounds of the row's slice are not arithmetic over the row variable and n_eqns: {show(seq)[:120]}")
         colvar = ("idx", seq, colloop.id)
         entry = ("elem", seq, colloop.id)
     # (c) row pointer appended before the column loop, unguarded, once per row
@@ -451,6 +459,12 @@ def _r1(ctx, m):
     rows_init = [simp(f.value) for f in fl.facts if f.kind == "init" and f.target in names["rows"]]
     trailing = rows_init == [("list", (("const", 0),))] and len(inrow) == 1 and not tail and not others and not inrow[0].guards and inrow[0].seq > last_col_fact
     ok = trailing or (len(inrow) == 1 and not inrow[0].guards and inrow[0].seq < first_col_fact and not others)
+    rows_other = [f for f in fl.facts if f.target in names["rows"] and f.kind not in ("init", "append")]
+    rows_odd_init = [x for x in rows_init if x not in (("list", ()), ("list", (("const", 0),)))]
+    if (rows_other or rows_odd_init or len(rows_init) != 1) and not (ok and (trailing or (len(tail) == 1 and not tail[0].guards and tail[0].seq > last_loop_fact))):
+        ctx.unrec("R1", "rowptr", (FILE, rowloop.line), "the row-pointer list is also filled by other statements than one append per row and a final one ("
+                  + "; ".join(f"{f.kind}{':' + f.op if getattr(f, 'op', None) else ''}@{f.line}" for f in rows_other) + f"; initial value {[show(x)[:40] for x in rows_init]}): not understood")
+        return
     ctx.check(ok, "R1", "rowptr-before-columns", (FILE, inrow[0].line if inrow else rowloop.line),
               "each row appends the running count to the row pointers before its columns are visited, unconditionally",
               expected="rows.append(nnz) as first statement of the row loop",
@@ -487,8 +501,14 @@ def _r1(ctx, m):
         b_ = match(("cmp", (V("op"),), (V("e"), V("lit"))), g[0][0][0])
         if b_ and b_["lit"][0] == "const" and not any(x == m.JAC for x in walk_(b_["e"])):
             traced = False
+    simple = all(x == g[0] for x in g) and (not g[0] or (len(g[0]) == 1 and bool(match(("cmp", (V("op"),), (V("e"), V("lit"))), g[0][0][0]))
+                                                       and match(("cmp", (V("op"),), (V("e"), V("lit"))), g[0][0][0])["lit"][0] == "const"))
     if not traced:
         ctx.unrec("R1", "single-guard", (FILE, c.line), f"the stored entries are filtered by a test on `{show(g[0][0][0])[:100]}`, which is not traced to the Jacobian table {m.JACNAME}")
+    elif same_loops and not guard_ok and all(x == g[0] for x in g) and not simple:
+        # one shared filter, but not a single comparison with a literal (several conditions, a helper predicate): not understood
+        ctx.unrec("R1", "single-guard", (FILE, c.line), "the condition under which an entry is stored is not a single comparison of the entry with a literal: "
+                  + " & ".join(("" if p else "not ") + show(x)[:60] for x, p in g[0]))
     else:
         ctx.check(same_loops and guard_ok, "R1", "single-guard", (FILE, c.line),
                   "cols.append, vals.append and the increment sit together under the single guard `entry != sentinel`",
@@ -497,8 +517,13 @@ def _r1(ctx, m):
     if guard_ok:
         if form == "range":
             ok = _npoly(m, slot_idx) == _npoly(m, ("binop", "Add", rowstart, colvar))
-            ctx.check(ok, "R1", "entry-index", (FILE, c.line), "the tested entry is jacrhs[row*n_eqns + col] of the two loop variables",
-                      found=show(slot_idx)[:120])
+            rowvar0 = ("elem", simp(rowloop.iter), rowloop.id)
+            idx_known = all(x in (colvar, rowvar0) or x[0] in ("binop", "const", "unop") or m.is_n_eqns(x) or m._known_arith(x) for x in _atoms(simp(slot_idx), (colvar, rowvar0), m))
+            if ok or idx_known:
+                ctx.check(ok, "R1", "entry-index", (FILE, c.line), "the tested entry is jacrhs[row*n_eqns + col] of the two loop variables",
+                          found=show(slot_idx)[:120])
+            else:
+                ctx.unrec("R1", "entry-index", (FILE, c.line), f"the subscript of the tested entry is not arithmetic over the two loop variables and n_eqns: {show(slot_idx)[:120]}")
         else:
             ctx.ok("R1", "entry-index", (FILE, c.line), "the tested entry is the element the column loop enumerates: jacrhs[row*n_eqns + col]")
         cv = simp(c.value)
@@ -521,9 +546,10 @@ def _r1(ctx, m):
     allnames = set(sum(names.values(), []))
     extra = [f for f in fl.facts if f.target in allnames and f.kind not in ("init", "append")]
     grow = [f for f in extra if f.kind == "mutate" and f.op in ("extend", "__iadd__", "iadd")]
-    if extra and len(grow) == len(extra):
-        # further elements added in bulk: another spelling of filling the lists, not understood here
-        ctx.unrec("R1", "no-other-writer", (FILE, extra[0].line), "the CSR lists also grow by " + "; ".join(f"{f.op}@{f.line}" for f in extra) + ": not understood")
+    edits = [f for f in extra if f.kind in ("store", "augstore", "remove") or (f.kind == "mutate" and f.op in ("sort", "reverse", "remove", "pop", "insert", "clear"))]
+    if extra and not edits:
+        # further elements added in bulk / the list re-bound: another spelling of filling the lists, not understood here
+        ctx.unrec("R1", "no-other-writer", (FILE, extra[0].line), "the CSR lists are also touched by " + "; ".join(f"{f.kind}{':' + str(f.op) if getattr(f, 'op', None) else ''}@{f.line}" for f in extra) + ": not understood")
     else:
         ctx.check(not extra, "R1", "no-other-writer", (FILE, extra[0].line if extra else m.func.lineno),
                   "the CSR lists are only initialised empty and appended to", found="; ".join(f"{f.kind}@{f.line}" for f in extra))
@@ -798,9 +824,12 @@ def _pattern_writer(ctx, rf, fn, sent):
     # marks computed for the whole table first and sliced afterwards: [f(x) for x in T][a:b] = [f(x) for x in T[a:b]]
     if src[0] == "comp":
         im = as_map(src)
-        if im is None or im[3]:
+        if im is None:
+            ctx.unrec("R5", "pattern-marks", (FILE, rline), f"mark list not understood: {show(src)[:100]}")
+            return
+        if im[3]:
             ctx.bad("R5", "pattern-marks", (FILE, rline), "the marks are computed from a FILTERED view of the Jacobian entries: positions in the pattern no longer "
-                    "correspond to positions in the table" if im is not None else f"mark list not understood: {show(src)[:100]}", found=show(src)[:140])
+                    "correspond to positions in the table", found=show(src)[:140])
             return
         cbody = simp(subst_(cbody, {cbv: im[1]}))
         cbv, src = im[0], simp(im[2])
@@ -839,8 +868,13 @@ def _pattern_writer(ctx, rf, fn, sent):
     want_lo = poly(("binop", "Mult", rvar, n))
     want_hi = poly(("binop", "Add", ("binop", "Mult", rvar, n), n))
     ok = sl[3] == ("const", None) and lo == want_lo and hi == want_hi and show(n).endswith(".jac.nrow")
-    ctx.check(ok, "R5", "pattern-rows", (FILE, rline),
-              "row r of the file is pattern[r*nrow:(r+1)*nrow] for r in range(nrow), nrow = ode.jac.nrow", found=show(cbase)[:140])
+    n_known = n[0] == "attr" and ".jac." in show(n)[-12:]
+    atoms_known = all(a_ in (rvar, n) for k_ in list(lo) + list(hi or {}) for a_ in k_)
+    if ok or (n_known and atoms_known and sl[3] == ("const", None)):
+        ctx.check(ok, "R5", "pattern-rows", (FILE, rline),
+                  "row r of the file is pattern[r*nrow:(r+1)*nrow] for r in range(nrow), nrow = ode.jac.nrow", found=show(cbase)[:140])
+    else:
+        ctx.unrec("R5", "pattern-rows", (FILE, rline), f"the slice a row is cut by is not arithmetic over the row number and ode.jac.nrow: {show(cbase)[:140]} for rows in range({show(n)[:60]})")
     # nothing edits the pattern after it was derived from the entries: no in-place edit of a local of this branch
     local = {nm for nm, lst in rf.assigns.items() for val, loops, guards, line, seq in lst if [(simp(g), p) for g, p in guards][:len(wg)] == wg and wg}
     muts = [f for f in rf.facts if f.target in (local | chain) and f.kind in ("store", "augstore", "mutate", "remove") ]
